@@ -510,6 +510,41 @@ def check_timeout(ck, prog):
     # and lzma_code() maps LZMA_TIMED_OUT to LZMA_OK without touching allow_buf_error is part of C11-FSM
 
 
+def check_no_input_progress(ck, prog, rule="C11-NOINPUT"):
+    """lzma2_decode(): in SEQ_LZMA the LZMA decoder can still produce output when every compressed byte of the chunk has been
+    read (a match is waiting for room in the dictionary).  The loop `while (*in_pos < in_size || coder->sequence == SEQ_LZMA)`
+    therefore has to be entered in SEQ_LZMA whatever else holds: the true edge of the SEQ_LZMA test leads to the dispatch
+    without another condition.  Otherwise a call with no input and fresh output space makes no progress and the second one
+    gets LZMA_BUF_ERROR although decodable data is pending."""
+    ck.rule(rule, "lzma2_decode: with no input left, the decoding loop is entered whenever the state is SEQ_LZMA (no further condition)")
+    f = prog.fn("lzma2_decode", "lzma2_decoder.c")
+    ck.saw_function(f)
+    sw = [b.id for b in f.blocks.values() if b.term and b.term.get("kind") == "SwitchStmt"]
+    tests = [b for b in f.blocks.values() if b.term and "cond" in b.term and len(b.succs) == 2
+             and b.term.get("kind") in ("WhileStmt", "BinaryOperator", "ForStmt")
+             and ex.show(ex.strip(b.term["cond"])).replace("(", "").replace(")", "") == "coder->sequence == SEQ_LZMA"]
+    if not sw or not tests:
+        raise AnalysisBroken("lzma2_decode: loop test `coder->sequence == SEQ_LZMA` / switch not found")
+    bad = None
+    for tb in tests:
+        x, hops = tb.succs[0], 0
+        while x is not None and x not in sw and hops < 8:
+            b = f.blocks[x]
+            if len([y for y in b.succs if y is not None]) != 1:
+                bad = b
+                break
+            x, hops = b.succs[0], hops + 1
+        if x not in sw and bad is None:
+            bad = f.blocks[tb.id]
+    ck.ob(rule, "lzma2_decode", bad is None, common.where(f, bad.term.get("cond") if bad is not None and bad.term else None),
+          "lzma2_decode: `coder->sequence == SEQ_LZMA` alone keeps the loop running when the input is used up" if bad is None else
+          "lzma2_decode(): with *in_pos == in_size the loop is entered in SEQ_LZMA only if `%s` also holds: when the LZMA decoder "
+          "has read the whole chunk but still has output pending (dictionary was full), a call with avail_in == 0 makes no "
+          "progress and the next one returns LZMA_BUF_ERROR although data can be produced" % (
+              ex.show(bad.term["cond"]) if bad is not None and bad.term and "cond" in bad.term else "?"),
+          key="NOINPUT:lzma2_decode")
+
+
 def run(ck):
     ck.explanation = (
         "The transition relation of lzma_code() is extracted by exhaustive finite-domain abstract evaluation "
@@ -525,6 +560,7 @@ def run(ck):
     check_restore(ck, prog)
     check_uninit(ck, prog)
     check_timeout(ck, prog)
+    check_no_input_progress(ck, prog)
     # "never touches memory outside the two buffers": bounds fact at every buf[pos] access (rule shared with C04)
     from . import C04 as _C04
     _C04.check_idx(ck, prog)
